@@ -22,6 +22,10 @@ def population(rng, n, with_foreign):
                 L.append("plant {D}/sub%d/inner y 644 %d %d" % (j, G.T0, G.T0))
         for j in range(rng.below(3)):
             L.append("plant {D}/.app%d d 644 %d %d" % (j, G.T0 - 10**9 * (1 + j), G.T0 - 10**9 * (1 + j)))
+        # file names are bytes, not text: a dot-prefixed application file whose name is not valid
+        # UTF-8 (Latin-1 e-acute), old enough to be the first victim if it were a candidate, and read
+        if rng.below(2):
+            L.append("plant {D}/.caf%%e9.lock d 644 %d %d" % (G.T0 - 50 * 10**9, G.T0 - 50 * 10**9 + 7))
         # temp files aged around the limit
         for j, delta in enumerate([-10 * 10**9, -10**9, -1, 0, 1, 10**9, 10 * 10**9]):
             if rng.below(2):
